@@ -73,7 +73,10 @@ def steady_state_transport_solver(
         2D or 3D field of kinematic flux at levels or footprint.
     """
 
-    q0 = srf_flx
+    # C-contiguous copy if needed: the FFT of a Fortran-ordered (e.g. transposed)
+    # source rounds differently depending on the memory alignment of the padded
+    # array, which made repeated identical calls differ in the last bits
+    q0 = np.ascontiguousarray(srf_flx)
     p000 = srf_bg_conc
     u, v, Kx, Ky, Kz = profiles
     xmx, ymx = domain
